@@ -245,6 +245,103 @@ Proof.
   rewrite Hc in H1. injection H1 as H1. lia.
 Qed.
 
+Lemma set_nth_set_nth {A} (l : list A) : forall a x y, set_nth (set_nth l a x) a y = set_nth l a y.
+Proof. induction l as [|h t IH]; intros [|a] x y; cbn [set_nth]; try reflexivity. now rewrite IH. Qed.
+
+Lemma set_nth_same {A} (l : list A) : forall a x, nth_opt l a = Some x -> set_nth l a x = l.
+Proof.
+  induction l as [|h t IH]; intros [|a] x H; cbn [set_nth nth_opt] in *; try discriminate.
+  - congruence.
+  - now rewrite (IH a x H).
+Qed.
+
+Lemma in_box_gen_nth dims : forall pos a c s,
+  in_box_gen dims pos -> nth_opt pos a = Some c -> nth_opt dims a = Some s -> c < s.
+Proof.
+  unfold in_box_gen. induction dims as [|s0 t IH]; intros pos a c s Hb Hc Hs.
+  - destruct a; discriminate Hs.
+  - inversion Hb as [|x s' pt t' Hx Hr]; subst. destruct a as [|a]; cbn [nth_opt] in *.
+    + congruence.
+    + eapply IH; eassumption.
+Qed.
+
+(* the neighbour relation is symmetric in every dimension *)
+Theorem grid_neighbors_sym_generic dims v u :
+  sides_pos dims -> v < grid_len dims -> In u (grid_neighbors dims v) ->
+  u < grid_len dims /\ In v (grid_neighbors dims u).
+Proof.
+  intros Hpos Hv Hin.
+  destruct (grid_neighbors_are_adjacent_cells dims v u Hpos Hv Hin) as (Hu & a & c' & (c & s & Hc & Hs & Hstep) & E).
+  split; [exact Hu|].
+  destruct (grid_index_bij_generic dims Hpos) as [F _]. destruct (F v Hv) as [_ Hb].
+  pose proof (in_box_gen_nth dims _ a c s Hb Hc Hs) as Hcs.
+  pose proof (nth_opt_Some _ _ _ Hc) as Ha.
+  apply (grid_adjacent_cells_are_neighbors dims u v a c Hpos Hu Hv).
+  - exists c', s. rewrite E. split; [apply nth_opt_set_nth_same; exact Ha|]. split; [exact Hs|].
+    destruct Hstep as [(H0 & -> & Hlt) | (-> & Hlt)]; [right | left]; repeat split; lia.
+  - rewrite E, set_nth_set_nth. symmetry. apply set_nth_same. exact Hc.
+Qed.
+
+Lemma NoDup_somes_map {A B} (f : A -> option B) (l : list A) :
+  (forall i j u, In i l -> In j l -> f i = Some u -> f j = Some u -> i = j) ->
+  NoDup l -> NoDup (somes (map f l)).
+Proof.
+  induction l as [|x t IH]; intros Hinj Hnd; cbn [map somes]; [constructor|].
+  inversion Hnd as [|? ? Hx Ht]; subst.
+  assert (IHt : NoDup (somes (map f t))).
+  { apply IH; [|exact Ht]. intros i j u Hi Hj. apply Hinj; right; assumption. }
+  destruct (f x) as [b|] eqn:E; [|exact IHt].
+  constructor; [|exact IHt]. intros Hin. apply In_somes_map in Hin. destruct Hin as (i & Hi & Hf).
+  assert (x = i) by (apply (Hinj x i b); [left; reflexivity | right; exact Hi | exact E | exact Hf]).
+  subst. contradiction.
+Qed.
+
+(* what one item of the iterator is, in terms of its counter value *)
+Lemma neighbor_step_inv dims pos i u :
+  neighbor_step dims pos i = Some u ->
+  exists c s c', nth_opt pos (i / 2) = Some c /\ nth_opt dims (i / 2) = Some s /\ c' < s
+                 /\ u = index_of dims (set_nth pos (i / 2) c')
+                 /\ ((i mod 2 = 0 /\ 0 < c /\ c' = c - 1) \/ (i mod 2 <> 0 /\ c' = c + 1)).
+Proof.
+  unfold neighbor_step. cbv zeta.
+  destruct (nth_opt pos (i / 2)) as [c|]; [|discriminate].
+  destruct (nth_opt dims (i / 2)) as [s|]; [|discriminate].
+  destruct (Nat.eqb (i mod 2) 0) eqn:Ep.
+  - apply Nat.eqb_eq in Ep. destruct (Nat.eqb c 0) eqn:Ec; [discriminate|]. apply Nat.eqb_neq in Ec.
+    destruct (Nat.leb s (c - 1)) eqn:El; [discriminate|]. apply Nat.leb_gt in El.
+    intros H. injection H as <-. exists c, s, (c - 1). repeat split; try assumption. left. repeat split; lia.
+  - apply Nat.eqb_neq in Ep.
+    destruct (Nat.leb s (c + 1)) eqn:El; [discriminate|]. apply Nat.leb_gt in El.
+    intros H. injection H as <-. exists c, s, (c + 1). repeat split; try assumption. right. split; [exact Ep | reflexivity].
+Qed.
+
+(* the iterator yields no cell twice, in every dimension *)
+Theorem grid_neighbors_nodup_generic dims v :
+  sides_pos dims -> v < grid_len dims -> NoDup (grid_neighbors dims v).
+Proof.
+  intros Hpos Hv. unfold grid_neighbors. cbv zeta.
+  destruct (grid_index_bij_generic dims Hpos) as [F G]. destruct (F v Hv) as [_ Hb].
+  set (pos := position_of dims v) in *.
+  apply NoDup_somes_map; [|apply seq_NoDup].
+  intros i j u _ _ Hi Hj.
+  destruct (neighbor_step_inv _ _ _ _ Hi) as (ci & si & ci' & Hci & Hsi & Hlti & Eui & Hdi).
+  destruct (neighbor_step_inv _ _ _ _ Hj) as (cj & sj & cj' & Hcj & Hsj & Hltj & Euj & Hdj).
+  assert (Hbi : in_box_gen dims (set_nth pos (i / 2) ci')) by (eapply in_box_gen_set_nth; eassumption).
+  assert (Hbj : in_box_gen dims (set_nth pos (j / 2) cj')) by (eapply in_box_gen_set_nth; eassumption).
+  assert (E : set_nth pos (i / 2) ci' = set_nth pos (j / 2) cj').
+  { destruct (G _ Hbi) as [_ Ei]. destruct (G _ Hbj) as [_ Ej]. rewrite <- Ei, <- Ej, <- Eui, <- Euj. reflexivity. }
+  pose proof (nth_opt_Some _ _ _ Hci) as Hai.
+  assert (Hn : nth_opt (set_nth pos (i / 2) ci') (i / 2) = Some ci') by (apply nth_opt_set_nth_same; exact Hai).
+  pose proof (Nat.div_mod_eq i 2) as Hdmi. pose proof (Nat.div_mod_eq j 2) as Hdmj.
+  assert (i mod 2 < 2) by (apply Nat.mod_upper_bound; lia).
+  assert (j mod 2 < 2) by (apply Nat.mod_upper_bound; lia).
+  destruct (Nat.eq_dec (i / 2) (j / 2)) as [Ea|Na].
+  - rewrite E, <- Ea, nth_opt_set_nth_same in Hn by exact Hai. injection Hn as Hn.
+    rewrite <- Ea, Hci in Hcj. injection Hcj as <-. lia.
+  - rewrite E, nth_opt_set_nth_other, Hci in Hn by (intros X; apply Na; symmetry; exact X).
+    injection Hn as Hn. lia.
+Qed.
+
 Example grid_neighbors_generic_nonvacuous :
   grid_neighbors [2; 3; 4; 5] 77 = [76; 75; 83; 53; 101]
   /\ map (position_of [2; 3; 4; 5]) [76; 75; 83; 53; 101]
